@@ -76,6 +76,8 @@ def _lstsq_unit(U, with_w, with_u):
         # which branch is this path?  (decided by the path condition)
         lamb_given = M.quick_unsat(list(p.pc) + [lamb.isnone])
         lamb_none = M.quick_unsat(list(p.pc) + [z3.Not(lamb.isnone)])
+        if lamb_given and lamb_none:
+            continue                  # contradictory path condition: an obligation of the body (reported above) is false on this path
         if lamb_given == lamb_none:
             raise M.ContractMismatch('_lstsq: a path that does not decide `lamb is None`')
         seen.add(lamb_given)
@@ -768,8 +770,10 @@ def u_als_validate_adaptive_u(U):
 #   * result: G1 of shape (r1, n1, q), G2 of shape (q, n2, r3) with 1 <= q <= max(r, 1): outer ranks and mode sizes kept, new
 #     bond within the cap - stated on the paths where the merged block is not identically zero.  On the other path the contract of
 #     matrix_skeleton(rel=True) (which divides by the largest singular value) does not apply and NO claim is made here.
-# NOT covered: values; that every block of Q is written before the SVD - it is NOT: blocks of pairs (k1, k2) without a sample keep
-# the uninitialised contents of np.empty (reported as a finding, see the final notes of this file); the experimental allow_swap branch.
+#   * every block of the merged core is either the folded solution of its pair - written exactly when the pair's mask selects a
+#     sample - or the zero of the allocation (the pinned tree allocated with np.empty: stale memory went into the SVD whenever a
+#     pair of neighbouring mode indices had no sample; repaired by np.zeros, and `blocks-...-zero-initialised` fails for np.empty).
+# NOT covered: values; the experimental allow_swap branch.
 
 from ttvc import vec as V
 
@@ -823,9 +827,32 @@ def _adaptive_unit(U, ltr, cache_kind, with_w):
     def inv_blocks(ex, s, j):
         return q_shape(s)
 
+    def alloc(kind):
+        def h(ex, s, args, kwargs, node):
+            v = M.FUNCS['np.' + kind](ex, s, args, kwargs, node)
+            v.init = kind
+            return v
+        return h
+
+    def keep_init(ex, h, pre_, j):
+        if isinstance(h.vars.get('Q'), VArr) and isinstance(pre_.vars.get('Q'), VArr):
+            h.vars['Q'].init = getattr(pre_.vars['Q'], 'init', None)
+
     def block_end(ex, s, o, j):
+        idx = s.vars.get('idx')
+        cnt = getattr(idx, 'count', None)
+        if cnt is None:
+            raise M.ContractMismatch('_optimize_core_adaptive: idx is no longer the boolean mask of the samples of the pair')
+        if o.kind == 'continue':
+            ex.oblige(s, 'post', 'a-pair-is-skipped-only-if-its-mask-selects-no-sample', cnt == 0, None, assume=False)
+            ex.oblige(s, 'post', 'a-skipped-pair-is-not-written', z3.BoolVal(not s.ghost.get('block_stores')), None, assume=False)
+            return
         if o.kind != 'normal':
             return
+        ex.oblige(s, 'post', 'a-written-block-has-at-least-one-sample', cnt >= 1, None, assume=False)
+        bs = s.ghost.get('block_stores', [])
+        if len(bs) == 1:
+            ex.oblige(s, 'post', 'the-written-block-is-the-block-of-the-pair', z3.And(Z(bs[0][0]) == Z(s.vars['k1']), Z(bs[0][1]) == Z(s.vars['k2'])), None, assume=False)
         calls = s.ghost.get('lstsq_calls', [])
         ex.oblige(s, 'post', 'one-solve-per-visited-pair', z3.BoolVal(len(calls) == 1 and len(s.ghost.get('block_stores', [])) == 1), None, assume=False)
         if len(calls) == 1:
@@ -845,9 +872,10 @@ def _adaptive_unit(U, ltr, cache_kind, with_w):
         return hook
 
     loops = {0: {'inv': inv_none, 'havoc_hook': table_hook('i1_cache')}, 1: {'inv': inv_none, 'havoc_hook': table_hook('i2_cache')},
-             2: {'inv': inv_blocks}, 3: {'inv': inv_blocks, 'body_end': block_end}}
+             2: {'inv': inv_blocks, 'havoc_hook': keep_init}, 3: {'inv': inv_blocks, 'body_end': block_end, 'havoc_hook': keep_init}}
     ex = U.executor(fn, loops=loops, callees={'als._lstsq': call_lstsq, 'svd.matrix_skeleton': c_skeleton,
-                                              'dict': lambda ex_, s, a, k, nd: s.alloc(X.VMaskMap('cache-table'))}, axioms=AXD)
+                                              'dict': lambda ex_, s, a, k, nd: s.alloc(X.VMaskMap('cache-table')),
+                                              'np.zeros': alloc('zeros'), 'np.empty': alloc('empty')}, axioms=AXD)
     if ex.nloops != 4:
         raise M.ContractMismatch(f'_optimize_core_adaptive: expected 4 loops, found {ex.nloops}')
     ex.als = True
@@ -868,6 +896,10 @@ def _adaptive_unit(U, ltr, cache_kind, with_w):
         Qs = p.ghost.get('Qs')
         U.post('the-unfolding-handed-to-the-SVD-is-(r1*n1)-x-(n2*r3)', p,
                z3.And(Z(Qs.shape[0]) == T.mul_canon(r1, n1), Z(Qs.shape[1]) == T.mul_canon(n2, r3)) if Qs is not None else False, axioms=AXD, mode='ematch')
+        # every block is either the folded least-squares solution of its pair (written exactly when the pair has a sample) or keeps
+        # the value of the allocation, which is zero (np.empty would leave stale memory there)
+        U.post('blocks-of-pairs-without-a-sample-are-zero-the-merged-core-is-zero-initialised', p,
+               z3.BoolVal(getattr(p.vars.get('Q'), 'init', None) == 'zeros'))
         if cache_kind != 'none':
             cf = p.heap[cache.oid].fields
             U.post('both-index-tables-are-in-the-cache-afterwards', p, z3.BoolVal(set(cf) == {'i1', 'i2'}))
@@ -1139,6 +1171,453 @@ for _cb in (False, True):
     _mk()
 
 
+
+# ----------------------------------------------------------------------------------------------
+# als_func._optimize_core - one core of the functional TT-ALS (all mode slices at once, optional dynamic truncation of the basis).
+#
+# One level of the (tail-)recursive function, for Q of shape (r1, n, r2), Yl (m x r1), Yr (r2 x m), Hk (m x n):
+#   * design matrix: row i is kron(Yl[i, :], Hk[i, :], Yr[:, i]) in C order = krrows(krrows(Yl, Hk), Yr^T) - the SAME C order in
+#     which Q is flattened (Q.reshape(-1)) and the solution folded back (sol.reshape(Q.shape)); hence A vec3(Q') are the model
+#     values fpred(Yl, Hk, Q', Yr^T) of the samples (axiom 'kr3vec', spot-checked against einsum);
+#   * lamb None: plain least squares of (A, y_trn) (update_sol is ignored for the right-hand side; als_func() asserts lamb in
+#     that case); lamb given: the ridge system (A^T A + lamb I, A^T y') with y' = y_trn - A vec3(Q) for an update;
+#   * Q is overwritten IN PLACE (Q[...] = / Q +=): vec3(Q') = x resp. vec3(Q) + x; for lamb > 0 and no update Q' satisfies the
+#     regularised normal equations;
+#   * dynamic truncation: the function calls itself on the view Q[:, :-1, :] / Hk[:, :-1] iff n_max is given, n > 1 and
+#     max|Q'[:, -1, :]| < thr_pow * max|Q'| with max|Q'| > 0 - the test on the top coefficient is RELATIVE to the largest entry of
+#     the core (for Q' = 0 the quotient is 0/0 = nan and nothing is truncated); the result of the inner call is returned, otherwise n;
+#     1 <= result <= n by induction (the inner call is used by this very contract for n - 1);
+#   * the inner call receives the CURRENT y_trn variable: with update_sol this is the already shifted right-hand side y' (it is
+#     shifted again inside) - stated as it is, update_sol together with n_max is outside C07.
+# NOT covered: values beyond the equations above, floating point except the 0/0 case, what the inner levels write (view semantics:
+# only the leading n-1 slices of Q can change, the top slice keeps the value of this level).
+
+AXF = T.axioms('shape', 'mulI', 'als_shape', 'lsq', 'krvec', 'als3', 'kr3vec', 'sub')
+
+
+def _func_core_unit(U, with_u):
+    fn = U.func('als_func', '_optimize_core')
+    st = U.state()
+    Qt, Ylt, Yrt, Ht, yt = z3.Const('Q', T.Core), z3.Const('Yl', T.Mat), z3.Const('Yr', T.Mat), z3.Const('Hk', T.Mat), z3.Const('y_trn', T.Mat)
+    r1, n, r2 = T.d0(Qt), T.d1(Qt), T.d2(Qt)
+    m = z3.Int('m')
+    Q = M.mk_core(Qt)
+    Yl, Yr, Hk = VArr((m, r1), Ylt, 'mat'), VArr((r2, m), Yrt, 'mat'), VArr((m, n), Ht, 'mat')
+    y = X.cvec(yt, m)
+    lamb, n_max, thr = S.opt_real('lamb'), S.opt_int('n_max'), z3.Real('thr_pow')
+    Ad = X.krrows(X.krrows(Ylt, Ht), tr(Yrt))
+    j_ = z3.Int('j!fc')
+
+    def c_self(ex, s, args, kwargs, node):
+        """The inner call, by the contract that this unit proves (induction on the number of mode slices)."""
+        if len(args) != 7 or set(kwargs) != {'lamb', 'update_sol'}:
+            raise M.ContractMismatch('_optimize_core: the inner call no longer has the form (Q, y, Yl, Yr, Hk, n_max, thr_pow, lamb=, update_sol=)')
+        Qv = s.deref(args[0])
+        base = getattr(Qv, 'view_of', None)
+        if not (isinstance(Qv, VArr) and Qv.ndim == 3 and Qv.t is not None and base is not None and base is s.vars.get('Q')):
+            raise M.ContractMismatch('_optimize_core: the inner call does not receive a view Q[:, :k, :] of the current Q')
+        nv = Z(Qv.shape[1])
+        yv, Ylv, Yrv, Hv = [s.deref(a) for a in args[1:5]]
+        ex.oblige(s, 'call-pre', 'inner call: at least one mode slice, interfaces and basis fit the view',
+                  z3.And(nv >= 1, Z(Qv.shape[0]) >= 1, Z(Qv.shape[2]) >= 1, Z(Ylv.shape[1]) == Z(Qv.shape[0]), Z(Yrv.shape[0]) == Z(Qv.shape[2]),
+                         Z(Hv.shape[1]) == nv, Z(Hv.shape[0]) == Z(Ylv.shape[0]), Z(Yrv.shape[1]) == Z(Ylv.shape[0]),
+                         Z(yv.shape[0]) == Z(Ylv.shape[0])), node)
+        s.ghost['inner'] = dict(Q=Qv, Qbefore=base, y=yv, Yl=Ylv, Yr=Yrv, H=Hv, n_max=args[5], thr=args[6], lamb=kwargs['lamb'], u=kwargs['update_sol'])
+        # effect: the inner levels write through the view - the leading nv slices of Q become SOME values, the rest is kept
+        hnew = ex.fresh('Qinner', T.Core)
+        s.assume(T.d0(hnew) == Z(Qv.shape[0]), T.d1(hnew) == nv, T.d2(hnew) == Z(Qv.shape[2]))
+        after = VArr(base.shape, X.cpre(base.t, hnew), 'core')
+        s.vars['Q'] = after
+        ret = ex.fresh_int('n_inner')
+        s.assume(ret >= 1, ret <= nv)
+        s.ghost['inner']['ret'] = ret
+        return ret
+
+    ex = U.executor(fn, callees={'als_func._optimize_core': c_self}, axioms=AXF)
+    ex.als = True
+    ex.mode = 'ematch'
+    st.vars.update(Q=Q, y_trn=y, Yl=Yl, Yr=Yr, Hk=Hk, n_max=n_max, thr_pow=thr, lamb=lamb, update_sol=True if with_u else NONE)
+    pre = [r1 >= 1, n >= 1, r2 >= 1, m >= 1, rows(Ylt) == m, cols(Ylt) == r1, rows(Yrt) == r2, cols(Yrt) == m, rows(Ht) == m, cols(Ht) == n,
+           rows(yt) == m, cols(yt) == 1, thr >= 0]
+    res = U.run(ex, st, pre=pre)
+    U.cover('precondition-satisfiable', U.pre, axioms=AXF)
+    seen = set()
+    for p, o in res:
+        if o.kind != 'return':
+            U.post('no-exception', p, False, axioms=AXF)
+            continue
+        calls = p.ghost.get('solver_calls', [])
+        U.post('exactly-one-solver-call-per-level', p, z3.BoolVal(len(calls) == 1))
+        if len(calls) != 1:
+            continue
+        c = calls[0]
+        if not (X.is_mat(c['M']) and X.is_cvec(c['b']) and X.is_cvec(c['x'])):
+            raise M.ContractMismatch('als_func._optimize_core: the solver is not called with a (matrix, vector) pair that has a denotation')
+        xs = c['x'].t
+        lamb_given = M.quick_unsat(list(p.pc) + [lamb.isnone])
+        lamb_none = M.quick_unsat(list(p.pc) + [z3.Not(lamb.isnone)])
+        if lamb_given and lamb_none:
+            continue                  # contradictory path condition: an obligation of the body (reported above) is false on this path
+        if lamb_given == lamb_none:
+            raise M.ContractMismatch('als_func._optimize_core: a path that does not decide `lamb is None`')
+        inner = p.ghost.get('inner')
+        seen.add((lamb_given, inner is not None))
+        Qw = inner['Qbefore'] if inner is not None else p.vars['Q']           # Q after the write of this level
+        if not (isinstance(Qw, VArr) and Qw.tag == 'core' and Qw.t is not None):
+            raise M.ContractMismatch('als_func._optimize_core: Q has no denotation after the write')
+        y1 = madd(yt, smul(-1, mm(Ad, X.vec3(Qt)))) if (with_u and lamb_given) else yt
+        if lamb_given:
+            Mx, bx = X.ridge(Ad, lamb.val), mm(tr(Ad), y1)
+            U.post('solver-gets-the-regularised-normal-matrix-of-the-three-factor-design-matrix', p, c['M'].t == Mx, axioms=AXF, mode='ematch')
+            U.post('solver-gets-the-projected-right-hand-side', p, c['b'].t == bx, axioms=AXF, mode='ematch')
+            U.post('only-temporaries-are-overwritten-by-the-solver', p, z3.BoolVal(c['M'] is not Q and c['b'] is not y))
+        else:
+            U.post('solver-gets-the-three-factor-design-matrix', p, c['M'].t == Ad, axioms=AXF, mode='ematch')
+            U.post('solver-gets-the-training-values-and-must-not-overwrite-them', p, z3.And(c['b'].t == yt, z3.BoolVal(c['ow_b'] is False)), axioms=AXF, mode='ematch')
+        if with_u:
+            U.post('Q-becomes-Q-plus-the-solution-folded-in-the-same-C-order', p, X.vec3(Qw.t) == madd(X.vec3(Qt), xs), axioms=AXF, mode='ematch')
+            if lamb_given:
+                U.post('the-increment-satisfies-the-regularised-normal-equations-of-the-residual', p,
+                       z3.Implies(lamb.val > 0, X.meq(mm(X.ridge(Ad, lamb.val), xs), mm(tr(Ad), y1))), axioms=AXF, mode='ematch')
+        else:
+            U.post('Q-becomes-the-solution-folded-in-the-same-C-order', p, X.vec3(Qw.t) == xs, axioms=AXF, mode='ematch')
+            U.post('solver-model-values-are-the-tensor-model-values-at-the-samples', p,
+                   mm(Ad, xs) == X.fpred(Ylt, Ht, Qw.t, tr(Yrt)), axioms=AXF, mode='ematch')
+            if lamb_given:
+                U.post('Q-satisfies-the-regularised-normal-equations', p,
+                       z3.Implies(lamb.val > 0, X.meq(mm(X.ridge(Ad, lamb.val), X.vec3(Qw.t)), mm(tr(Ad), yt))), axioms=AXF, mode='ematch')
+            else:
+                U.post('Q-satisfies-the-normal-equations', p, X.meq(mm(tr(Ad), mm(Ad, X.vec3(Qw.t))), mm(tr(Ad), yt)), axioms=AXF, mode='ematch')
+        U.post('Q-keeps-its-shape', p, z3.And(T.d0(Qw.t) == r1, T.d1(Qw.t) == n, T.d2(Qw.t) == r2), axioms=AXF, mode='ematch')
+        # the truncation test
+        top, whole = X.maxabsM(T.sl(Qw.t, n - 1)), X.maxabsC(Qw.t)
+        cond = z3.And(z3.Not(n_max.isnone), n > 1, whole > 0, top < thr * whole)
+        ret = Z(o.value) if M.is_num(o.value) else None
+        if ret is None:
+            U.post('returns-a-number', p, False)
+            continue
+        if inner is None:
+            U.post('no-truncation-unless-the-top-coefficient-is-small-RELATIVE-to-the-largest-entry', p, z3.Not(cond), axioms=AXF)
+            U.post('without-truncation-the-number-of-mode-slices-is-returned', p, ret == n, axioms=AXF)
+        else:
+            U.post('truncation-only-if-the-top-coefficient-is-small-RELATIVE-to-the-largest-entry', p, cond, axioms=AXF)
+            U.post('the-result-of-the-inner-call-is-returned', p, ret == inner['ret'], axioms=AXF)
+            U.post('the-inner-call-works-on-the-view-without-the-top-slice-and-the-basis-without-its-last-column', p,
+                   z3.And(inner['Q'].t == X.ctrunc(Qw.t, n - 1), inner['H'].t == V.lcols(Ht, n - 1)), axioms=AXF, mode='ematch')
+            U.post('the-inner-call-gets-the-same-interfaces-caps-and-flags', p,
+                   z3.BoolVal(inner['Yl'] is Yl and inner['Yr'] is Yr and inner['n_max'] is n_max and inner['thr'] is thr
+                              and inner['lamb'] is lamb and inner['u'] is st.vars['update_sol']))
+            U.post('the-inner-call-gets-the-current-right-hand-side', p,
+                   inner['y'].t == y1 if X.is_cvec(inner['y']) else False, axioms=AXF, mode='ematch')
+            Qf = p.vars['Q']
+            U.post('the-top-slice-keeps-the-value-of-this-level', p, T.sl(Qf.t, n - 1) == T.sl(Qw.t, n - 1), axioms=AXF, mode='ematch')
+        U.post('returns-between-1-and-the-number-of-mode-slices', p, z3.And(ret >= 1, ret <= n), axioms=AXF)
+        U.canary('canary-always-truncates', p, ret < n, axioms=AXF)
+    U.post('both-solver-branches-with-and-without-truncation-reached', U.pre,
+           z3.BoolVal(seen == {(True, True), (True, False), (False, True), (False, False)}))
+
+
+for _u in (False, True):
+    def _mk(u=_u):
+        @unit(f'als_func._optimize_core.{"update" if u else "plain"}', props=('C07',))
+        def u_(U):
+            _func_core_unit(U, u)
+    _mk()
+
+
+
+# ----------------------------------------------------------------------------------------------
+# als_func.als_func, head: the info dictionary (possibly the shared default, C10) is reset before anything is read from it, the
+# reported rank is that of A0, and update_sol without a learning rate is rejected by the assert before info is touched.
+
+def _is_func_head_end(stmt):
+    return isinstance(stmt, _ast.Assign) and isinstance(stmt.targets[0], _ast.Name) and stmt.targets[0].id == 'X_trn'
+
+
+def _als_func_head(U, with_u):
+    fn = U.func('als_func', 'als_func')
+    if not any(_is_func_head_end(s_) for s_ in fn.body):
+        raise M.ContractMismatch('als_func(): the statement `X_trn = np.asanyarray(...)` that ends the head is gone')
+    st = U.state()
+    A0r, A0, d = S.tt_param(st, 'A0', z3.Int('d'))
+    info = st.alloc(VRec({'stale': VOpaque('left over from an earlier call')}))
+    lamb = S.opt_real('lamb')
+
+    def c_erank(ex, s, a, kw, node):
+        Ys = C._tt_of(s, a[0])
+        ex.oblige(s, 'call-pre', 'erank: argument is a well-formed TT-tensor', z3.And(Ys.n == d, T.wf(Ys.arr, d)), node)
+        return C.erank_f(Ys.arr, Ys.n)
+
+    ex = U.executor(fn, callees={'props.erank': c_erank}, stop_at=_is_func_head_end)
+    ex.asserts = True
+    st.vars.update(X_trn=VOpaque('X_trn'), y_trn=VOpaque('y_trn'), A0=A0r, a=z3.Real('a'), b=z3.Real('b'), nswp=S.opt_int('nswp'), e=S.opt_real('e'),
+                   info=info, X_vld=NONE, y_vld=NONE, e_vld=S.opt_real('e_vld'), fh=NONE, lamb=lamb, n_max=S.opt_int('n_max'),
+                   thr_pow=z3.Real('thr_pow'), log=False, update_sol=True if with_u else NONE)
+    res = U.run(ex, st, pre=[T.wf(A0, d)])
+    U.cover('precondition-satisfiable', U.pre)
+    kinds = set()
+    for p, o in res:
+        kinds.add((o.kind, o.exc))
+        f = p.heap[info.oid].fields
+        if o.kind == 'raise':
+            U.raise_iff('rejects-only-update_sol-without-a-learning-rate', p, z3.And(z3.BoolVal(with_u), lamb.isnone))
+            U.raise_iff('by-the-assertion-before-info-is-touched', p, z3.BoolVal(o.exc == 'AssertionError' and set(f) == {'stale'}))
+        elif o.kind == 'stop':
+            U.raise_iff('accepts-otherwise', p, z3.Not(z3.And(z3.BoolVal(with_u), lamb.isnone)))
+            U.raise_iff('info-is-reset-before-anything-is-read', p, z3.BoolVal({'r', 'e', 'e_vld', 'nswp', 'stop'} <= set(f)))
+            U.raise_iff('counters-start-at-their-documented-values', p,
+                        z3.And(Z(f['e']) == -1, Z(f['e_vld']) == -1, Z(f['nswp']) == 0, z3.BoolVal(f['stop'] is NONE)) if {'e', 'e_vld', 'nswp', 'stop'} <= set(f) else False)
+            U.raise_iff('reported-rank-is-that-of-the-initial-tensor', p, (f['r'] == C.erank_f(A0, d)) if 'r' in f else False)
+        else:
+            U.post('head-ends-at-the-conversion-of-X_trn', p, False)
+    U.post('expected-paths-reached', U.pre, z3.BoolVal(kinds == ({('raise', 'AssertionError'), ('stop', None)} if with_u else {('stop', None)})))
+
+
+@unit('als_func.als_func.head', props=('C07', 'C10'))
+def u_als_func_head(U):
+    _als_func_head(U, False)
+
+
+@unit('als_func.als_func.head.update_sol', props=('C07', 'C10'))
+def u_als_func_head_u(U):
+    _als_func_head(U, True)
+
+
+
+# ----------------------------------------------------------------------------------------------
+# als_func.als_func, the fit itself: the code FROM the first `teneva._info_appr(...)` call on (pre-sweep, sweeps, final cut of the
+# mode sizes), control + shape tier, for update_sol=None and without validation data.
+#
+# This is a contract of a program FRAGMENT: the state that the head of als_func() builds before that statement is described by the
+# precondition below and is NOT verified here (only its info part is: unit als_func.als_func.head):
+#   Y   working copy of A0, every core zero-padded in the mode direction to the width of its basis matrix: ranks of A0,
+#       d1(Y[k]) = cols(H[k]) >= n[k];     n[k] = d1(A0[k]) current mode sizes (1 <= n[k] <= d1(Y[k]));
+#   H   one basis matrix (m x cols) per dimension;  Yl[k] (m x r_k) / Yr[k] (r_{k+1} x m) interface matrices;
+#   info = {r, e: -1, e_vld: -1, nswp: 0, stop: None}.
+# Stated (C07): nswp = executed sweeps, documented stop reason consistent with _info_appr (no callback here; a reason satisfied
+# before the first sweep still costs one sweep); sweep order left-to-right over cores 0..d-2 then right-to-left over d-1..1; each
+# step calls _optimize_core on the VIEW of core k widened by one basis function (min(n[k] + 1, width)), with the interfaces and the
+# basis columns of core k, stores the returned size in n[k] (1 <= n[k] <= width stays true) and rebuilds the next interface from
+# the basis columns, the neighbouring interface and the leading n[k] slices of the updated core; all contraction shapes agree; the
+# result is a NEW list whose core k has the ranks of A0[k] and n[k] mode slices - a well-formed tensor; the working list is never A0.
+# NOT covered: the head (basis construction, padding), values (the zeroing `c[:, n_k:, :] = 0.` writes through list elements and
+# is not modelled), validation data, update_sol, the first entry of each direction's loop is covered by the invariant (no peel).
+
+def _func_sweeps_unit(U):
+    import copy as _copy
+    fn0 = U.func('als_func', 'als_func')
+    starts = [k for k, s_ in enumerate(fn0.body) if isinstance(s_, _ast.Expr) and isinstance(s_.value, _ast.Call)
+              and _ast.unparse(s_.value.func) == 'teneva._info_appr']
+    if len(starts) != 1:
+        raise M.ContractMismatch('als_func(): the first `teneva._info_appr(...)` statement that starts the fit is not where the contract expects it')
+    fn = _copy.copy(fn0)
+    fn.body = fn0.body[starts[0]:]
+    st = U.state()
+    A0r, A0, d = S.tt_param(st, 'A0', z3.Int('d'))
+    m = z3.Int('m')
+    Yarr = z3.Const('Y', T.TT)
+    narr, Harr, Ylarr, Yrarr = z3.Const('n', X.IA), z3.Const('H', X.IA), z3.Const('Yl', X.IA), z3.Const('Yr', X.IA)
+    Yref = st.alloc(VSeq(Yarr, d, M.mk_core, 'core'))
+    nref = st.alloc(VSeq(narr, d, lambda t: t, 'int'))
+    Href = st.alloc(VSeq(Harr, d, M._optarr_wrap, 'optarr'))
+    Ylref = st.alloc(VSeq(Ylarr, d, M._optarr_wrap, 'optarr'))
+    Yrref = st.alloc(VSeq(Yrarr, d, M._optarr_wrap, 'optarr'))
+    nswp, e, e_vld, lamb, thr = S.opt_int('nswp'), S.opt_real('e'), S.opt_real('e_vld'), S.opt_real('lamb'), z3.Real('thr_pow')
+    info = st.alloc(VRec({'r': C.erank_f(A0, d), 'e': z3.RealVal(-1), 'e_vld': z3.RealVal(-1), 'nswp': z3.IntVal(0), 'stop': NONE}))
+    y_trn = VArr((m,), None, None)
+    k_, t_ = z3.Int('k!fs'), z3.Int('t!fs')
+    OR, OC = M.OROWS, M.OCOLS
+
+    def q(body, pat):
+        return z3.ForAll([k_], z3.Implies(z3.And(0 <= k_, k_ < d), body), patterns=[pat])
+
+    def facts(Ya, na, Ha, Yla, Yra):
+        return [('cores-keep-the-ranks-of-A0-and-the-width-of-their-basis',
+                 q(z3.And(T.d0(Ya[k_]) == T.d0(A0[k_]), T.d2(Ya[k_]) == T.d2(A0[k_]), T.d1(Ya[k_]) == OC(Ha[k_])), Ya[k_])),
+                ('mode-sizes-stay-between-1-and-the-width', q(z3.And(1 <= na[k_], na[k_] <= OC(Ha[k_])), na[k_])),
+                ('basis-matrices-fit', q(z3.And(Ha[k_] != 0, OR(Ha[k_]) == m, OC(Ha[k_]) >= 1), Ha[k_])),
+                ('left-interfaces-fit', q(z3.And(Yla[k_] != 0, OR(Yla[k_]) == m, OC(Yla[k_]) == T.d0(A0[k_])), Yla[k_])),
+                ('right-interfaces-fit', q(z3.And(Yra[k_] != 0, OR(Yra[k_]) == T.d2(A0[k_]), OC(Yra[k_]) == m), Yra[k_]))]
+
+    def lists(s):
+        Y, n_, H, Yl, Yr = [s.deref(s.vars[x]) for x in ('Y', 'n', 'H', 'Yl', 'Yr')]
+        if not (isinstance(Y, VSeq) and Y.tag == 'core' and isinstance(n_, VSeq) and n_.tag == 'int' and all(isinstance(v, VSeq) and v.tag == 'optarr' for v in (H, Yl, Yr))):
+            raise M.ContractMismatch('als_func(): Y / n / H / Yl / Yr no longer have the list types of the contract')
+        return Y, n_, H, Yl, Yr
+
+    def fields(s):
+        return s.heap[info.oid].fields
+
+    def common(ex, s):
+        Y, n_, H, Yl, Yr = lists(s)
+        f = fields(s)
+        stop = S.as_opt(f['stop'])
+        return [('lists-keep-their-length', z3.And(Y.n == d, n_.n == d, H.n == d, Yl.n == d, Yr.n == d))] + facts(Y.arr, n_.arr, H.arr, Yl.arr, Yr.arr) + [
+            ('basis-and-interface-lists-are-not-replaced', z3.And(H.arr == Harr, Yl.arr == Ylarr, Yr.arr == Yrarr)),
+            ('working-list-is-not-A0', z3.BoolVal(s.vars['Y'].oid != A0r.oid and s.heap[A0r.oid].arr is A0)),
+            ('sweep-counter', f['nswp'] == s.ghost['_j1']),
+            ('nswp-not-yet-reached-while-running', z3.Implies(stop.isnone, z3.Or(nswp.isnone, f['nswp'] < nswp.val))),
+            ('a-pending-reason-comes-from-before-the-first-sweep', z3.Or(stop.isnone, z3.And(s.ghost['_j1'] == 0, S.stop_is(f['stop'], 'nswp')))),
+            ('a-pending-nswp-reason-is-justified', z3.Implies(S.stop_is(f['stop'], 'nswp'), z3.And(z3.Not(nswp.isnone), nswp.val <= 0))),
+            ('no-validation-error-without-validation-data', f['e_vld'] == -1)]
+
+    def c_core(ex, s, args, kwargs, node):
+        """als_func._optimize_core by its contract (units als_func._optimize_core.*): 1 <= result <= mode slices of the view; it writes
+        into the view only (contents are not followed here)."""
+        if len(args) != 7 or set(kwargs) != {'lamb', 'update_sol'}:
+            raise M.ContractMismatch('als_func(): _optimize_core is no longer called as (Q, y, Yl, Yr, Hk, n_max, thr_pow, lamb=, update_sol=)')
+        Qv = s.deref(args[0])
+        yv, Ylv, Yrv, Hv = [X._unopt(ex, s, a, node, '_optimize_core-argument') for a in args[1:5]]
+        if not (isinstance(Qv, VArr) and Qv.ndim == 3 and all(isinstance(v, VArr) for v in (yv, Ylv, Yrv, Hv))):
+            raise M.Unsupported('als_func._optimize_core: arguments are not arrays')
+        nv = Z(Qv.shape[1])
+        ex.oblige(s, 'call-pre', '_optimize_core: at least one mode slice, interfaces and basis fit the view',
+                  z3.And(nv >= 1, Z(Qv.shape[0]) >= 1, Z(Qv.shape[2]) >= 1, Z(Ylv.shape[1]) == Z(Qv.shape[0]), Z(Yrv.shape[0]) == Z(Qv.shape[2]),
+                         Z(Hv.shape[1]) == nv, Z(Hv.shape[0]) == Z(Ylv.shape[0]), Z(Yrv.shape[1]) == Z(Ylv.shape[0]),
+                         Z(yv.shape[0]) == Z(Ylv.shape[0]), Z(Ylv.shape[0]) >= 1), node)
+        ret = ex.fresh_int('n_new')
+        s.assume(ret >= 1, ret <= nv)
+        s.ghost['fc_calls'] = s.ghost.get('fc_calls', []) + [dict(Q=Qv, y=yv, Yl=args[2], Yr=args[3], H=Hv, n_max=args[5], thr=args[6],
+                                                                  lamb=kwargs['lamb'], u=kwargs['update_sol'], ret=ret)]
+        return ret
+
+    tt = C._tt_of
+    callees = {'props.erank': lambda ex, s, a, k, n_: C.erank_f(tt(s, a[0]).arr, tt(s, a[0]).n),
+               'act_two.accuracy': lambda ex, s, a, k, n_: C.acc_f(tt(s, a[0]).arr, tt(s, a[0]).n, tt(s, a[1]).arr),
+               'als_func._optimize_core': c_core}
+
+    def havoc_hook(ex, h, pre_, j):
+        Y, n_, H, Yl, Yr = lists(h)
+        h.ghost['body0'] = dict(n=n_.arr, Y=Y.arr, n_fc=len(h.ghost.get('fc_calls', [])), n_ct=len(h.ghost.get('contracts', [])))
+
+    def dir_hook(ex, h, pre_, j):
+        havoc_hook(ex, h, pre_, j)
+        lr = h.vars.get('lr')
+        h.ghost['dirs'] = h.ghost.get('dirs', []) + [lr]
+        h.ghost['n_iter_ltr' if lr == 1 else 'n_iter_rtl'] = h.ghost['_n']        # number of iterations of this half sweep
+
+    def view_of_core(v, Yarr_, k):
+        """v is Y[k][:, :w, :]: returns w (or None)."""
+        if isinstance(v, VArr) and v.ndim == 3 and v.t is not None and z3.is_app(v.t) and v.t.decl().eq(X.ctrunc):
+            return z3.And(v.t.arg(0) == Yarr_[k]), v.t.arg(1)
+        return None, None
+
+    def step_end(ex, s, o, j):
+        if o.kind != 'normal':
+            return
+        lr = s.vars.get('lr')
+        if lr not in (1, -1):
+            raise M.ContractMismatch('als_func(): the direction variable lr is not the literal 1 / -1')
+        ltr = lr == 1
+        dr = 'ltr' if ltr else 'rtl'
+        k = j if ltr else d - 1 - j
+        b0 = s.ghost['body0']
+        fcs, cts = s.ghost.get('fc_calls', [])[b0['n_fc']:], s.ghost.get('contracts', [])[b0['n_ct']:]
+        ob = lambda lbl, g: ex.oblige(s, 'post', f'{dr}: {lbl}', g, None, assume=False)
+        ob('one-core-update-and-one-interface-update-per-step', z3.BoolVal(len(fcs) == 1 and len(cts) == 1))
+        if len(fcs) != 1 or len(cts) != 1:
+            return
+        Y, n_, H, Yl, Yr = lists(s)
+        c = fcs[0]
+        is_view, w = view_of_core(c['Q'], b0['Y'], k)
+        width = OC(H.arr[k])
+        ob('the-core-of-the-step-is-updated-through-a-view-widened-by-one-basis-function',
+           z3.And(is_view, w == z3.If(b0['n'][k] + 1 <= width, b0['n'][k] + 1, width)) if is_view is not None else False)
+        ob('the-interfaces-of-core-k-are-used', z3.And(_code(c['Yl']) == Yl.arr[k], _code(c['Yr']) == Yr.arr[k]))
+        ob('the-width-of-the-basis-is-the-cap-of-the-dynamic-search', Z(c['n_max']) == width if M.is_num(c['n_max']) else False)
+        ob('data-threshold-regularisation-and-update-flag-are-passed-through',
+           z3.BoolVal(c['y'] is y_trn and c['thr'] is thr and c['lamb'] is lamb and c['u'] is NONE))
+        ob('the-returned-size-is-stored-for-core-k-only',
+           z3.And(n_.arr[k] == c['ret'], z3.ForAll([t_], z3.Implies(t_ != k, n_.arr[t_] == b0['n'][t_]), patterns=[n_.arr[t_]])))
+        ob('the-list-of-cores-is-not-rebound', Y.arr == b0['Y'])
+        ev = cts[0]
+        want = 'jr,jk,krl->jl' if ltr else 'jr,irk,kj->ij'
+        ok = ev['spec'].replace(' ', '') == want and len(ev['raw']) == 3 and ev['outraw'] is not None
+        ob('the-interface-contraction-is-the-documented-one-written-in-place', z3.BoolVal(ok))
+        if not ok:
+            return
+        core_op = ev['ops'][2] if ltr else ev['ops'][1]
+        if_op = ev['raw'][1] if ltr else ev['raw'][2]
+        is_v2, w2 = view_of_core(core_op, Y.arr, k)
+        ob('the-next-interface-is-built-from-the-interface-of-core-k-and-the-leading-n[k]-slices-of-the-updated-core',
+           z3.And(is_v2, w2 == n_.arr[k], _code(if_op) == (Yl if ltr else Yr).arr[k],
+                  _code(ev['outraw']) == (Yl.arr[k + 1] if ltr else Yr.arr[k - 1])) if is_v2 is not None else False)
+
+    def pre_end(ex, s, o, j):
+        if o.kind != 'normal':
+            return
+        k = d - 1 - j
+        Y, n_, H, Yl, Yr = lists(s)
+        cts = s.ghost.get('contracts', [])[s.ghost['body0']['n_ct']:]
+        ok = len(cts) == 1 and cts[0]['spec'].replace(' ', '') == 'ik,rkq,qi->ri' and len(cts[0]['raw']) == 3 and cts[0]['outraw'] is not None
+        ex.oblige(s, 'post', 'pre: one-documented-interface-contraction-per-step', z3.BoolVal(ok), None, assume=False)
+        if ok:
+            is_v, w = view_of_core(cts[0]['ops'][1], Y.arr, k)
+            ex.oblige(s, 'post', 'pre: right-interface-k-1-is-built-from-right-interface-k-and-the-leading-n[k]-slices-of-core-k',
+                      z3.And(is_v, w == n_.arr[k], _code(cts[0]['raw'][2]) == Yr.arr[k], _code(cts[0]['outraw']) == Yr.arr[k - 1])
+                      if is_v is not None else False, None, assume=False)
+
+    loops = {0: {'inv': lambda ex, s, j: [], 'havoc_hook': havoc_hook, 'body_end': pre_end},
+             1: {'inv': lambda ex, s, j: common(ex, s), 'havoc_hook': havoc_hook},
+             3: {'inv': lambda ex, s, j: common(ex, s), 'havoc_hook': dir_hook, 'body_end': step_end},
+             4: {'inv': lambda ex, s, j: [], 'havoc_hook': havoc_hook}, 5: {'inv': lambda ex, s, j: [], 'havoc_hook': havoc_hook}}
+    ex = U.executor(fn, loops=loops, callees=callees, axioms=T.axioms('shape', 'als3'))
+    if ex.nloops != 6:
+        raise M.ContractMismatch(f'als_func(): expected 6 loops from the first _info_appr call on, found {ex.nloops}')
+    ex.als = True
+    ex.mode = 'ematch'
+    AXS = ex.axioms
+    st.vars.update(X_trn=VOpaque('deleted'), y_trn=y_trn, A0=A0r, a=z3.Real('a'), b=z3.Real('b'), nswp=nswp, e=e, info=info, X_vld=NONE, y_vld=NONE,
+                   e_vld=e_vld, fh=VOpaque('fh'), lamb=lamb, n_max=S.opt_int('n_max'), thr_pow=thr, log=False, update_sol=NONE,
+                   _time=z3.Real('_time'), m=m, d=d, n=nref, Y=Yref, is_cheb=z3.Bool('is_cheb'), Yl=Ylref, Yr=Yrref, H=Href)
+    pre = [T.wf(A0, d), m >= 1] + [g for _, g in facts(Yarr, narr, Harr, Ylarr, Yrarr)] + \
+          [z3.ForAll([k_], z3.Implies(z3.And(0 <= k_, k_ < d), narr[k_] == T.d1(A0[k_])), patterns=[narr[k_]])]
+    res = U.run(ex, st, pre=pre)
+    U.cover('precondition-satisfiable', U.pre, axioms=AXS)
+    nret = 0
+    for p, o in res:
+        if o.kind != 'return':
+            U.post('no-exception', p, False, axioms=AXS)
+            continue
+        nret += 1
+        f = fields(p)
+        Ys = p.deref(o.value)
+        ok = isinstance(o.value, VRef) and isinstance(Ys, VSeq) and Ys.tag == 'core'
+        U.post('returns-a-new-list-of-cores-not-A0', p, z3.BoolVal(ok and o.value.oid not in (A0r.oid, Yref.oid) and p.heap[A0r.oid].arr is A0))
+        if not ok:
+            continue
+        n_ = p.deref(p.vars['n'])
+        jj = p.ghost['_j1']
+        U.post('result-core-k-has-the-ranks-of-A0-and-n[k]-mode-slices', p,
+               z3.And(Ys.n == d, q(z3.And(T.d0(Ys.arr[k_]) == T.d0(A0[k_]), T.d2(Ys.arr[k_]) == T.d2(A0[k_]), T.d1(Ys.arr[k_]) == n_.arr[k_],
+                                          n_.arr[k_] >= 1), Ys.arr[k_])), axioms=AXS, mode='ematch')
+        U.post('result-is-a-well-formed-TT-tensor', p, T.wf(Ys.arr, d), axioms=AXS, mode='ematch')
+        U.post('exactly-one-documented-stop-reason', p, S.stop_in(f['stop'], ('nswp', 'e', 'e_vld')), axioms=AXS)
+        U.post('info-nswp-is-the-number-of-executed-sweeps', p, z3.And(f['nswp'] == jj + 1, f['nswp'] >= 1), axioms=AXS)
+        U.post('stop-e-only-if-reported-value-within-threshold', p,
+               z3.Implies(S.stop_is(f['stop'], 'e'), z3.And(z3.Not(e.isnone), f['e'] >= 0, f['e'] <= e.val)), axioms=AXS)
+        U.post('stop-e_vld-impossible-without-validation-data', p, z3.Not(S.stop_is(f['stop'], 'e_vld')), axioms=AXS)
+        U.post('stop-nswp-only-if-requested-and-reached', p,
+               z3.Implies(S.stop_is(f['stop'], 'nswp'), z3.And(z3.Not(nswp.isnone), f['nswp'] >= nswp.val)), axioms=AXS)
+        U.post('stop-nswp-after-exactly-nswp-sweeps', p,
+               z3.Implies(z3.And(S.stop_is(f['stop'], 'nswp'), nswp.val >= 1), f['nswp'] == nswp.val), axioms=AXS)
+        Yold, Ywork = p.deref(p.vars['Yold']), p.heap[Yref.oid]
+        # (info['r'] / info['e'] are computed BEFORE the final cut of the mode sizes: they describe the zero-padded working tensor)
+        U.post('reported-rank-and-convergence-are-those-of-the-padded-working-tensor', p,
+               z3.And(f['r'] == C.erank_f(Ywork.arr, d), f['e'] == C.acc_f(Ywork.arr, d, Yold.arr)), axioms=AXS)
+        dirs = p.ghost.get('dirs', [])
+        U.post('a-sweep-goes-left-to-right-then-right-to-left-over-d-1-cores-each', p,
+               z3.And(z3.BoolVal(dirs[-2:] == [1, -1]), p.ghost.get('n_iter_ltr', z3.IntVal(-1)) == d - 1,
+                      p.ghost.get('n_iter_rtl', z3.IntVal(-1)) == d - 1, p.ghost['_j0'] == d - 1), axioms=AXS)
+        U.canary('canary-always-stops-by-nswp', p, S.stop_is(f['stop'], 'nswp'), axioms=AXS)
+    U.post('a-return-site-is-reached', U.pre, z3.BoolVal(nret >= 1))
+
+
+@unit('als_func.als_func.sweeps', props=('C07',))
+def u_als_func_sweeps(U):
+    _func_sweeps_unit(U)
+
+
 # ==============================================================================================
 # Hand-made mutants (MUT_BASE=/tmp/base tools/mut.sh als.py '<sed>' <units>) and the NAMED obligation that reports each.
 #
@@ -1186,3 +1665,26 @@ for _cb in (False, True):
 #   _lstsq(A, b, lamb=lamb, -> lamb=None                       -> post regularisation-and-weights-reach-the-block-solve
 #   w=w[idx] if ... -> w=w if ...                              -> call-pre _lstsq: one weight per row
 #   undecided: swapped shapeQ1 / shapeQ2 in the final reshapes -> Unsupported (reshape pattern); cache['i2'] = ... -> cache['i1'] = ... -> Unsupported (after key-present[i2])
+#   Q = np.zeros((Q1.shape[0], ... -> np.empty(...  (the pinned-tree defect)   -> post blocks-of-pairs-without-a-sample-are-zero-the-merged-core-is-zero-initialised (refuted)
+#   Q[:, k1, k2, :] = sol.reshape(shape) -> Q[:, k2, k1, :]   -> safety mode-index-in-range, post the-written-block-is-the-block-of-the-pair
+# als_func._optimize_core.*   (tools/mut.sh als_func.py ...)
+#   contract('li,ik,ij->ikjl', ...) -> 'li,ik,ij->ijkl'       -> post solver-gets-the-(regularised-normal-matrix-of-the-)three-factor-design-matrix
+#   np.abs(Q[:, -1, :]).max() / np.abs(Q).max() < thr_pow -> np.abs(Q[:, -1, :]).max() < thr_pow   (absolute instead of relative test)
+#                                                              -> post (no-)truncation-...-RELATIVE-to-the-largest-entry
+#   inner call on Q[:, :-1, :] -> Q[:, :-2, :]                 -> call-pre inner call: at least one mode slice, interfaces and basis fit the view
+#   AtA + lamb*np.identity(...) -> AtA + np.identity(...)      -> post solver-gets-the-regularised-normal-matrix-..., Q-satisfies-the-regularised-normal-equations
+#   Q[...] = sol.reshape(Q.shape) -> Q += sol.reshape(Q.shape) -> post Q-becomes-the-solution-folded-in-the-same-C-order
+#   if n_k > 1 and ... -> if n_k > 0 and ...                   -> call-pre inner call: at least one mode slice, ...
+#   y_trn = y_trn - A@(Q.reshape(-1)) -> +                     -> post solver-gets-the-projected-right-hand-side (unit update)
+# als_func.als_func.head*
+#   'nswp': 0 -> 'nswp': 1 in info.update                      -> raise-iff counters-start-at-their-documented-values (refuted)
+#   assert lamb is not None -> assert lamb is None             -> raise-iff rejects-only-update_sol-without-a-learning-rate (refuted)
+#   'stop': None dropped from info.update                      -> raise-iff info-is-reset-before-anything-is-read (refuted)
+# als_func.als_func.sweeps
+#   rng = ... if lr == 1 else ... -> if lr != 1                -> safety list-index-in-range, post ltr: the-core-of-the-step-is-updated-through-a-view-...
+#   n_k = min(n[k] + 1, n_max_cur) -> n[k] + 2                 -> post ltr/rtl: the-core-of-the-step-is-updated-through-a-view-widened-by-one-basis-function
+#   ltr contract(..., out=Yl[k+1]) -> out=Yl[k]                -> call-pre contract-out-has-the-result-shape, post ltr: the-next-interface-is-built-from-...
+#   final cut [(c if n_k == c.shape[1] else c[:, :n_k, :].copy()) ...] -> [c ...]   -> post result-core-k-has-the-ranks-of-A0-and-n[k]-mode-slices
+#   info['nswp'] += 1 -> += 0                                  -> inv-keep loop1.sweep-counter, post info-nswp-is-the-number-of-executed-sweeps
+#   _optimize_core(..., n_max_cur, ...) -> n_max               -> post ltr/rtl: the-width-of-the-basis-is-the-cap-of-the-dynamic-search
+#   range(0, d-1, +1) -> range(0, d-2, +1);  for lr in [1, -1] -> [-1, 1]   -> post a-sweep-goes-left-to-right-then-right-to-left-over-d-1-cores-each
